@@ -373,6 +373,7 @@ pub fn gen_case(run_seed: u64, cfg: &GenCfg) -> Case {
             max_pending: *sr.pick(&[1, 2, 2, 3, 4]),
             pending_permille: 600,
             spurious_permille: *sr.pick(&[0, 0, 50, 200]),
+            strict_wakers: sr.chance(1, 3),
             ..Default::default()
         }
     } else {
